@@ -1809,6 +1809,14 @@ pub struct ConnectionH2<Front: SocketHandler> {
     refuse_count_window: u32,
     /// Start timestamp for the current back-pressure window.
     refuse_window_start: Instant,
+    /// Backend connections (`Position::Client`): set once the one-off
+    /// WINDOW_UPDATE that enlarges our connection-level receive window from the
+    /// RFC default to `connection_config.initial_connection_window` has been
+    /// queued. The enlargement is tied to the backend's FIRST SETTINGS frame;
+    /// later SETTINGS frames must not repeat it, or the window advertised to
+    /// the backend grows by ~1 MiB per SETTINGS frame, past the configured
+    /// bound and eventually past 2^31-1 (RFC 9113 §6.9.1).
+    connection_window_enlarged: bool,
     /// Set once we have halved `local_settings.settings_max_concurrent_streams`
     /// in response to a refusal burst. Prevents the cap from collapsing to 0
     /// on sustained abuse — a single halving per connection is sufficient to
@@ -1961,6 +1969,7 @@ impl<Front: SocketHandler> ConnectionH2<Front> {
             stream_idle_timeout,
             refuse_count_window: 0,
             refuse_window_start: Instant::now(),
+            connection_window_enlarged: false,
             mcs_backpressure_applied: false,
         })
     }
@@ -5817,9 +5826,8 @@ impl<Front: SocketHandler> ConnectionH2<Front> {
         // connections (Position::Client). The server side does this in
         // the ServerSettings writable path, but the client needs to do
         // it here after receiving the server's initial SETTINGS.
-        if self.position.is_client()
-            && self.flow_control.window <= DEFAULT_INITIAL_WINDOW_SIZE as i32
-        {
+        if self.position.is_client() && !self.connection_window_enlarged {
+            self.connection_window_enlarged = true;
             let increment = self
                 .connection_config
                 .initial_connection_window
